@@ -90,7 +90,8 @@ def check(rep, tier, seed, driver):
                 "exercised); stream lattice: 2-3-D integer/half-integer points (many equidistant neighbours), distances from numpy. "
                 "non-trivial = a batch mixing admitted and rejected candidates on a non-empty archive AND >= 2 capacity doublings AND "
                 "(without LC: a clear of a non-empty archive or an admitted duplicate; with LC: a replacement and several competitors for "
-                "one neighbour); distinct by hash of (cfg, ops)")
+                "one neighbour); distinct by hash of (cfg, ops)" 
+                "; plus: float64 objectives that are not float32 values (wide container); statistics and best_elite against the contents after every operation")
     cases = []
     cdir = os.path.join(CORPUS, "C14")
     if os.path.isdir(cdir):
